@@ -23,6 +23,7 @@ def raising_test(inp, limit=0.0):
 '''
 
 FAULTS = ["unknown_module", "unknown_module_dotted", "unknown_test", "missing_param", "rejected_param", "input_not_supplied", "absent_stream",
+          "absent_stream_own_context",
           "raises_on_data", "aggregate_entry"]
 POSITIONS = ["first", "last"]
 
@@ -104,6 +105,11 @@ class Faulty(StreamRun):
             elif f == "aggregate_entry":
                 put(sid, "qartod", "aggregate", {})
                 dead.append((sid, "qartod", "aggregate"))
+        if self.fault == "absent_stream_own_context":
+            # a whole context (without window) that only names streams the data does not have
+            ghost_ctx = {"streams": {"ghost": {"qartod": {"probe_test": {"thr": S.limit}}}, "ghost2": {"qartod": {"spike_test": {"suspect_threshold": 1}}}}}
+            cfg["contexts"] = [ghost_ctx] + cfg["contexts"] if self.position == "first" else cfg["contexts"] + [ghost_ctx]
+            dead += [("ghost", "qartod", "probe_test"), ("ghost2", "qartod", "spike_test")]
         return cfg, dead
 
     def _collect(self, mods, res):
@@ -302,10 +308,10 @@ class XarrayMixedDims(Job):
 
 def jobs(tier):
     out = []
-    fes = ["numpy", "pandas", "netcdf", "xarray", "qcconfig"] if tier == "quick" else ["numpy", "numpy_dict", "pandas", "pandas_idx", "netcdf", "xarray", "qcconfig"]
+    fes = ["numpy", "numpy_dict", "pandas", "netcdf", "xarray", "qcconfig"] if tier == "quick" else ["numpy", "numpy_dict", "pandas", "pandas_idx", "netcdf", "xarray", "qcconfig"]
     for fe in fes:
         for fault in FAULTS:
-            if fault == "absent_stream" and fe in ("numpy", "qcconfig"):
+            if fault in ("absent_stream", "absent_stream_own_context") and fe in ("numpy", "qcconfig"):
                 continue      # a single unnamed array has no stream ids
             for pos in POSITIONS:
                 if tier == "quick" and pos == "last" and fault in ("unknown_module", "unknown_module_dotted", "missing_param", "aggregate_entry"):
